@@ -14,10 +14,16 @@ R1, R2, IOV, PATH1, WBUF, RBUF, STAT, DIRBUF, PATH2, BIG = 0x100, 0x110, 0x200, 
 
 def build_driver(wd, asan=True, name="wasidrv"):
     exe = os.path.join(wd, name)
-    cmd = ["gcc", "-g", "-O1", "-w"] + (["-fsanitize=address", "-fno-omit-frame-pointer"] if asan else []) + \
+    cov, cwd = [], None
+    if os.environ.get("VERIF_GCOV"):
+        cwd = os.path.join(os.environ["VERIF_GCOV"], "wasi")          # coverage survey: counters outlast the check
+        os.makedirs(cwd, exist_ok=True)
+        cov = ["--coverage"]
+        exe = os.path.join(cwd, name)
+    cmd = ["gcc", "-g", "-O1", "-w"] + cov + (["-fsanitize=address", "-fno-omit-frame-pointer"] if asan else []) + \
           ["-I", os.path.join(REPO, "w2c2"), "-I", os.path.join(REPO, "wasi"), *WDEFS,
            os.path.join(BINDC, "wasi_driver.c"), os.path.join(REPO, "wasi", "wasi.c"), "-o", exe, "-lm", "-lpthread"]
-    rc, out, err = run(cmd, timeout=300)
+    rc, out, err = run(cmd, timeout=300, **({"cwd": cwd} if cwd else {}))
     if rc != 0:
         raise MachineryError("cannot build the WASI driver: " + err[-2000:])
     return exe
@@ -73,7 +79,10 @@ def script_line(c, sandbox):
     if k == "symlink":
         return "symlink %s %s %d %s" % (abi, hexs(c.get("target", "t").encode()), c["dirfd"], hexs(c["path"].encode()))
     if k == "rename":
-        return "rename %s %d %s %d %s" % (abi, c["dirfd"], hexs(c["path"].encode()), c["fd"], hexs(c.get("path2", "z").encode()))
+        p2 = c.get("path2", "z")
+        if c.get("abs2"):
+            p2 = sandbox + "/" + p2
+        return "rename %s %d %s %d %s" % (abi, c["dirfd"], hexs(c["path"].encode()), c["fd"], hexs(p2.encode()))
     raise MachineryError("no script form for " + k)
 
 
